@@ -32,7 +32,8 @@ func (c08) Meta() fw.Meta {
 			"oracle (library fetches at the clock the command printed in its now: line): exit 0 => for every selected archive and slot of the window src has a value => dest equals it (and src NaN => dest NaN with -copy-nan); source bytes unchanged; absent destination created with exactly the requested header even when nothing is copied; " +
 			"layout mismatch => exit != 0 and destination byte-identical; repeating the command leaves the destination bytes unchanged; with -copy-nan a following diff over the same window/archives exits 0; glob: every matched relative path exists under the destination. " +
 			"non-trivial = scenario in which at least one slot was actually copied and at least one already-equal slot had to survive; distinct by scenario parameters." +
-			" Perturbations include one-ulp neighbours; in glob mode with the default window the first source is locked for 1.2-1.8 s while a fresh point is written to the last source.",
+			" Perturbations include one-ulp neighbours; in glob mode with the default window the first source is locked for 1.2-1.8 s while a fresh point is written to the last source." +
+			" When the destination is absent the requested method/xFilesFactor differ from the source header's in every 2nd case; every 10th glob case copies from a server whose file listing breaks off half way (exit 0 only if every matched file was copied).",
 		Assumptions: []string{
 			"CLI commands read the wall clock; the oracle uses the now: value the command printed (per file), so the comparison is exact at that instant",
 			"value equality is numeric (+0 == -0), as the command's own difference test; NaN equals NaN",
